@@ -183,6 +183,9 @@ var xgoPkgs = []Pkg{
 	{"err-dup-type-switch", map[string]string{
 		"main.xgo": "func f(v any) {\n\tswitch v.(type) {\n\tcase int, string, int, string, nil, nil:\n\tcase bool, int:\n\t}\n}\n",
 	}},
+	{"err-dup-type-switch-composite", map[string]string{
+		"main.xgo": "type T struct{}\n\nfunc f(v any) {\n\tswitch v.(type) {\n\tcase []int, []int, []int:\n\tcase map[string]int, *T, map[string]int, *T, map[string]int:\n\tcase func(int) string, []int, func(int) string, *T:\n\t}\n}\n",
+	}},
 	{"err-duplicate-methods", map[string]string{
 		"a.xgo": "type T struct{}\n\nfunc (T) m() {}\nfunc (T) n() {}\n",
 		"b.xgo": "func (T) m() {}\nfunc (T) n() {}\n\ntype T2 struct{ T }\n",
